@@ -38,7 +38,8 @@ THEOREMS = ['inv_reachable', 'inv_step', 'at_most_one_owner_and_alive', 'step_ne
             'router_lookup_is_spec_owner', 'lookup_follows_history', 'lookup_at_that_moment',
             'lookups_change_nothing', 'queries_agree_any_name', 'prefix_router_finds_dead_owner',
             'owners_follow_names_step', 'owners_follow_names_history', 'router_models_agree',
-            'unicast_reaches_spec_owner', 'wellknown_owner_is_live']
+            'unicast_reaches_spec_owner', 'wellknown_owner_is_live',
+            'joint_bus_invariant', 'joint_bus_unicast', 'joint_bus_owner_is_live']
 TRUSTED_BASE = [
     'Python dict (insertion order, in-place overwrite, del), list.remove / insert / append / `in`, '
     'object identity of connections (`is`) - mirrored by hand in Bus/Names.lean, validated by the streams',
